@@ -228,7 +228,8 @@ def flagNames : List (String × (Fixes → Bool) × (Fixes → Fixes)) :=
    ("helperClashErr", (·.helperClashErr), fun f => { f with helperClashErr := true }),
    ("kindIdentErr", (·.kindIdentErr), fun f => { f with kindIdentErr := true }),
    ("stopRefErr", (·.stopRefErr), fun f => { f with stopRefErr := true }),
-   ("reservedErr", (·.reservedErr), fun f => { f with reservedErr := true })]
+   ("reservedErr", (·.reservedErr), fun f => { f with reservedErr := true }),
+   ("reservedRefErr", (·.reservedRefErr), fun f => { f with reservedRefErr := true })]
 
 def fixesOf (s : String) : Option Fixes :=
   match s with
